@@ -22,6 +22,7 @@ inductive Kind | void | value
 inductive Inner
   | thenI (ctx : Nat)        -- attach a further continuation (empty body) to the same task
   | destroyCtx (c : Nat)     -- delete a context object
+  | dropAll                  -- drop every handle (promise and task copies), e.g. the owner deletes itself
   deriving DecidableEq, Repr
 
 inductive Op
@@ -43,7 +44,7 @@ abbrev Delivered := Option Nat
 
 inductive Ev
   | ran (k : Nat) (ctx : Nat) (v : Delivered)
-  | released (hadResult : Bool) (hadCont : Bool)   -- TaskData destroyed: what it still held
+  | released   -- the shared record is destroyed (last handle gone); reported at the end of the step
   deriving DecidableEq, Repr
 
 structure St where
@@ -73,6 +74,7 @@ def St.effCtx (s : St) (c : Nat) : Nat := if s.alive c then c else 0
 /-- `QXmppTask::then` when the task is already finished (no continuation body involved:
 used for re-entrant attaches, whose continuations have an empty body). -/
 def thenFinishedSimple (s : St) (ctx : Nat) : St × List Ev :=
+  if s.refs = 0 then (s, []) else
   let k := s.nextId
   let s := { s with nextId := k + 1 }
   match s.kind with
@@ -91,6 +93,11 @@ def runInner (s : St) : List Inner → St × List Ev
     (r2.1, r1.2 ++ r2.2)
   | .destroyCtx c :: rest =>
     runInner { s with dead := if c = 0 then s.dead else c :: s.dead } rest
+  | .dropAll :: rest =>
+    -- the record itself stays alive until the running continuation returns (`invokeContinuation`
+    -- holds a reference, repo commit "fix: use after free when a continuation drops the last handle"),
+    -- but nothing can reach it any more: stored value and continuation are gone with it
+    runInner { s with refs := 0, result := none, cont := none } rest
 
 /-- the wrapper lambda installed by `then` before finish: test the context, run, clear itself -/
 def invokeCont (s : St) (c : Cont) (v : Delivered) : St × List Ev :=
@@ -100,7 +107,8 @@ def invokeCont (s : St) (c : Cont) (v : Delivered) : St × List Ev :=
   else
     ({ s with cont := none }, [])
 
-def step (s : St) : Op → St × List Ev
+/-- one operation, without the end-of-step `released` report -/
+def stepCore (s : St) : Op → St × List Ev
   | .thenOp ctx body =>
     if s.refs = 0 then (s, []) else
     let k := s.nextId
@@ -141,9 +149,13 @@ def step (s : St) : Op → St × List Ev
   | .dropHandle =>
     if s.refs = 0 then (s, [])
     else if s.refs = 1 then
-      ({ s with refs := 0, result := none, cont := none },
-       [.released s.result.isSome s.cont.isSome])
+      ({ s with refs := 0, result := none, cont := none }, [])
     else ({ s with refs := s.refs - 1 }, [])
+
+/-- one operation; `released` is reported at the end of the step in which the last handle went away -/
+def step (s : St) (op : Op) : St × List Ev :=
+  let r := stepCore s op
+  if s.refs ≠ 0 ∧ r.1.refs = 0 then (r.1, r.2 ++ [.released]) else r
 
 def run (s : St) : List Op → St × List Ev
   | [] => (s, [])
